@@ -32,6 +32,26 @@ def reversed_processor(f):
     return processor
 
 
+# operations that work on every byte (or on the values as opaque members of a set) independently, for which
+# reverse(a) op reverse(b) == reverse(a op b) holds
+_BYTEWISE_OPERATIONS = frozenset(
+    (
+        "eq",
+        "__or__",
+        "__and__",
+        "__xor__",
+        "bitwise_or",
+        "bitwise_and",
+        "bitwise_xor",
+        "union",
+        "_union",
+        "intersection",
+        "_multi_valued_intersection",
+        "widen",
+    )
+)
+
+
 def normalize_types(f):
     @functools.wraps(f)
     def normalizer(self: StridedInterval, o):
@@ -84,6 +104,13 @@ def normalize_types(f):
 
         if f.__name__ == "concat":
             # TODO: Some optimizations can be applied to concat
+            if self._reversed:
+                self = self._reverse()
+            if o._reversed:
+                o = o._reverse()
+
+        elif f.__name__ not in _BYTEWISE_OPERATIONS:
+            # arithmetic and ordering do not commute with a byte swap: the operands have to be reversed for real
             if self._reversed:
                 self = self._reverse()
             if o._reversed:
